@@ -491,6 +491,10 @@ NEGATIVE = [
      ['unit', 'B1', 'xneg', ['scaled', 'F:-1/4', 'x0']],
      ['unit', 'B1', 'x1', ['scaled', 'i:1000', 'x0']],
      ['unit', 'B2', 'yneg', ['scaled', 'i:-60', 'y0']],
+     # a plain int factor directly on the reference unit (its reciprocal is
+     # no binary fraction)
+     ['unit', 'B2', 'y3', ['term', [['i:3', 1], ['y0', 1]]]],
+     ['unit', 'B1', 'x7', ['term', [['i:7', 1], ['x0', 1]]]],
      ['dtype', 'P', [['B1', 1], ['B2', 1]], None, None],
      ['unit', 'P', 'xnyn', ['derive', ['xneg', 'yneg']]],
      ['dtype', 'V', [['B1', 1], ['B2', -1]], None, None],
